@@ -40,6 +40,7 @@ def run(ck):
     ck.run_rule(m1_terms_colour_parametric)
     ck.run_rule(m2_geometry_mirror)
     ck.run_rule(m3_summary_colour_symmetric)
+    ck.run_rule(m4_no_evaluation_state)
 
 
 def a1_loop_structure(ck):
@@ -230,8 +231,10 @@ def a2_operator_parity(ck):
 
 def a3_terminal_parity(ck):
     """terminal returns are O or Z (shared with C05 V2)."""
-    from .c05 import v2_terminal_values
+    from .c05 import v2_terminal_values, v1_bypass
     v2_terminal_values(ck)
+    # the terminal test must be about the side to move whatever the perspective is: the shortcut's king (V1)
+    v1_bypass(ck)
 
 
 def t1_piece_square_mirror(ck):
@@ -743,3 +746,52 @@ def m3_summary_colour_symmetric(ck):
                    show(diff[0][2])[:160] if diff else ""), "%d path(s) compared with their colour-exchanged image" % len(paths))
     ck.extra["M3_scope"] = [n.split("::")[-1] for n in scope]
     ck.extra["M3_functions_naming_a_colour"] = n_named
+
+
+# ---------------------------------------------------------------------------------------------------------------
+# M4: the score is a function of the position and the perspective only
+# ---------------------------------------------------------------------------------------------------------------
+def m4_no_evaluation_state(ck):
+    """Both clauses compare two evaluations; they can only agree for all positions if an evaluation does not depend on what was evaluated
+    before.  No function reachable from Evaluator::evaluate may read thread-local state or a static with interior mutability (write-once
+    tables excepted): a cache keyed by anything less than the whole input makes a position and its mirror (or the two perspectives) see
+    different histories."""
+    prog = ck.prog
+    import json as _json
+    import re as _re
+    from callgraph import CallGraph
+    from .c19 import INTERIOR_MUT
+    from .common import write_once_static
+    cg = CallGraph(prog)
+    # the indirect calls of Evaluator::evaluate go through the EVALUATORS table: its entries are the possible targets
+    table = ck.const(EV + "EVALUATORS", "M4")
+    terms = [x["$fn"] for row in table for x in row if isinstance(x, dict) and "$fn" in x]
+    seen, _e, _i = cg.reachable([EVAL], fn_values=terms)
+    # other functions with indirect calls must carry their own table of targets (function values referenced in their body, which
+    # reachable() follows); one that does not gets its targets from somewhere this rule does not see
+    others = sorted(n for n in seen if n in cg.indirect and n != EVAL and not cg.refs.get(n))
+    if others:
+        # an indirect call somewhere else: fall back to every address-taken function (over-approximation)
+        seen, _e, _i = cg.reachable([EVAL])
+    n_fn = 0
+    for n in sorted(seen):
+        b = prog.raw_body(n)
+        if b is None or b.crate not in ("weechess_core", "weechess_engine"):
+            continue
+        n_fn += 1
+        for blk in b.blocks:
+            for s_ in blk["stmts"]:
+                if s_["k"] == "assign" and "thread_local" in s_["rv"]:
+                    ck.fail("M4.thread_local", n.split("::")[-1], b.where(s_.get("line")), "the evaluation reads thread-local state: the score of a position depends on what this thread evaluated before")
+        for name in sorted(set(_re.findall(r'"\\$static": "([^"]+)"', _json.dumps(b.j)))):
+            st = prog.statics.get(name)
+            if st is None:
+                continue
+            ty = st["ty"]
+            if ty.startswith("lazy_static::lazy::Lazy<") or ty == name:
+                continue
+            if any(m in ty for m in INTERIOR_MUT) or "static mut" in ty:
+                once, why = write_once_static(prog, name, st)
+                ck.req(once, "M4.static", name.split("::")[-1], b.where(), "the evaluation reads the mutable static `%s: %s`: the score of a position depends on earlier evaluations" % (name, ty[:80]))
+    ck.floor("M4", n_fn, 20, "workspace functions reachable from Evaluator::evaluate")
+    ck.ok("M4.pure", "Evaluator::evaluate", "", "%d reachable workspace function(s): no thread-local access, no mutable static" % n_fn)
